@@ -10,6 +10,82 @@ COUNTS_QUICK = {"roam": 120, "uniform": 100, "macro": 40, "affine": 30, "pressur
 COUNTS_THOROUGH = {"roam": 3000, "uniform": 2000, "macro": 1000, "affine": 500, "pressure": 200}
 
 
+def gen_protocol(r):
+    """a random history of the probe protocol: window, then moves (small and far, both directions)
+    interleaved with operand accesses inside the window"""
+    mn = -r.choice([0, 0, 1, 2, 3, 8, 40])
+    mx = r.choice([0, 0, 1, 2, 3, 8, 40])
+    ops = []
+    for _ in range(r.randint(3, 40)):
+        k = r.below(10)
+        if k < 4:
+            d = r.choice([1, -1, 2, -2, 3, -3, 5, -7, 64, -64, 1000, -1000, mx + 1, mn - 1, 70000, -70000])
+            ops.append("m:%d" % d)
+        elif k < 7:
+            ops.append("g:%d" % r.randint(mn, mx))
+        else:
+            ops.append("s:%d:%d" % (r.randint(mn, mx), r.randint(1, 255)))
+    return mn, mx, ops
+
+
+def protocol_correspondence(res, rng, driver, hv, n):
+    """BCRaw.v (the model theorem C06_protocol_safe is about) vs runtime::Memory: the model's log
+    drives the implementation through the same history; every probe must hit/miss as the model
+    says, every operand cell must test accessible before it is dereferenced, every read must
+    return the model's value"""
+    hist = [gen_protocol(rng.fork()) for _ in range(n)]
+    mlines = ["rawproto|%d|%d|%s" % (mn, mx, ";".join(["e"] + ops)) for mn, mx, ops in hist]
+    mout = C.run_lines(driver, mlines)
+    ilines, plans = [], []
+    for (mn, mx, ops), m in zip(hist, mout):
+        if not m.split(" | ")[-1].startswith("ok") or not m.endswith("inwindow"):
+            raise C.CheckFailure("protocol model failed on an in-window history: %s -> %s" % (ops, m[:200]))
+        log = m.split(" | ")[0].split()
+        li = 0
+        iops = ["a:%d:%d" % (mn, mx + 1)]
+        want = ["-"]
+        for op in ops:
+            f = op.split(":")
+            if f[0] == "m":
+                hit = log[li] == "p=1"; li += 1
+                d = int(f[1])
+                iops += ["m:%d" % d, "c:%d" % (mn if d < 0 else mx)]
+                want += ["-", "c=%d" % (1 if hit else 0)]
+                if not hit:
+                    iops.append("a:%d:%d" % (mn, mx + 1)); want.append("-")
+            elif f[0] == "g":
+                v = log[li][2:]; li += 1
+                iops += ["c:%s" % f[1], "r:%s" % f[1]]
+                want += ["c=1", "r=%s" % v]
+            else:
+                iops += ["c:%s" % f[1], "w:%s:%s" % (f[1], f[2])]
+                want += ["c=1", "-"]
+        ilines.append("tape|8|%s" % ";".join(iops))
+        plans.append(want)
+    iout = C.run_lines(hv, ilines)
+    st = {"histories": n, "ops": sum(len(w) for w in plans), "probe_misses": 0, "mismatches": 0, "oob": 0}
+    rep = 0
+    for (mn, mx, ops), want, line, r, ml in zip(hist, plans, ilines, iout, mlines):
+        got = r.split(" | ")[0].split()
+        st["probe_misses"] += sum(1 for x in want if x == "c=0")
+        facts_ok = r.endswith("facts:ok")
+        if got == want and facts_ok:
+            continue
+        # an operand cell that is not accessible when it is dereferenced is a real out-of-bounds access
+        oob = any(g == "c=0" and wv == "c=1" for g, wv in zip(got, want))
+        st["oob" if oob else "mismatches"] += 1
+        if rep < 3:
+            rep += 1
+            if oob:
+                res.violation("the probe protocol of the checked interpreter would dereference outside the tape buffer: window [%d,%d], history %s (an operand cell tests inaccessible)" % (mn, mx, ";".join(ops)[:300]),
+                              {"case": line, "model_case": ml, "implementation": r[:600], "expected": " ".join(want)})
+            else:
+                res.violation("BCRaw.v / Tape.v and runtime::Memory disagree on a protocol history (window [%d,%d]): %s" % (mn, mx, ";".join(ops)[:300]),
+                              {"case": line, "model_case": ml, "implementation": r[:600], "expected": " ".join(want),
+                               "correspondence": "BCRaw.v vs runtime::Memory (theorem C06_protocol_safe is about BCRaw.v)"}, no_failing_input=True)
+    return st
+
+
 def run(res):
     rng = C.Rng(res.seed * 7919 + 6)
     broken = []
@@ -62,7 +138,9 @@ def run(res):
                             rep += 1
                             res.violation("C06 %s level %d width %d (%s build): %s; program %r env %s pointer excursion %s" % (backend, level, c.w, prof, bad, c.src[:200], c.env, c.meta["exc"]),
                                           {"case": l, "implementation": r[:300], "canonical": c.canon, "profile": prof, "src": c.src})
+    stats["protocol"] = protocol_correspondence(res, rng, driver, hv, 600 if res.tier == "quick" else 20000)
     exc.sort()
+    res.coverage["theorems"] = ["C06_protocol_safe", "C09_tape_refines", "C09_raw_in_bounds", "C11_cells_in_window"]
     res.coverage.update({
         "evaluations": stats["runs"],
         "distinct_nontrivial": len(set(c.key() for c in H if c.meta["exc"][1] - c.meta["exc"][0] >= 8)),
@@ -71,7 +149,8 @@ def run(res):
         "stats": stats, "excursion_span_min_med_max": [exc[0], exc[len(exc) // 2], exc[-1]] if exc else [],
         "distribution": P.distribution(H), "backends": BACKENDS,
     })
-    res.assumptions += ["index discipline is proved on Tape.v (C09_raw_in_bounds); that Rust pointer arithmetic and the JIT's addressing realise those indices is observed by guard pages, not proved",
+    res.assumptions += ["memory protocol: theorem C06_protocol_safe proves for every history of the one-sided probe protocol (BCRaw.v: entry, moves in both directions of any size within 2^60, raw operand accesses inside the window) that no raw index leaves the buffer and reads return the last value written (0 if none); tied to runtime::Memory by driving the implementation through model-predicted histories (stats.protocol); that generated operands lie in the window is C11",
+                        "index discipline is proved on Tape.v (C09_raw_in_bounds); that Rust pointer arithmetic and the JIT's addressing realise those indices is observed by guard pages, not proved",
                         "page granularity: an access within the same page beyond a left-flushed block's end is only caught by the right-flush run and vice versa"]
     if broken and not res.violations:
         res.violation("proof side of C06 no longer checks: " + "; ".join(broken)[:1500], {"broken": broken}, no_failing_input=True)
